@@ -1,6 +1,6 @@
 (* C05 - UDP fragmentation is all-or-nothing and size-bounded.
    Property theorems only; every proof is `exact <lemma>` from proof/C05_Frag.v. *)
-From Hy Require Import model.C05_Frag model.C05_Send proof.C05_Frag proof.C05_Send.
+From Hy Require Import model.C05_Frag model.C05_Send model.C05_SendIds proof.C05_Frag proof.C05_Send proof.C05_SendIds.
 From Coq Require Import ZArith.
 Local Open Scope N_scope.
 
@@ -151,3 +151,50 @@ Theorem C05_send_hist_example : exists rs d',
   feed_all d_init (hist_accepted rs) = Ok (d', hist_delivered 4096 7 ex_hist).
 Proof. exact ex_hist_run. Qed.
 Print Assumptions C05_send_hist_example.
+
+(* ---------------- packet ids of a history (model/C05_SendIds.v) ---------------- *)
+
+(* Histories under the EXACT requirement on the ids: every message that is split carries an id different from the id
+   of the most recent earlier message that was split (what the far side's single slot may still hold).  Ids of
+   messages that go out whole or are discarded do not matter.  Conclusion as in C05_send_hist_delivers. *)
+Theorem C05_send_hist_delivers_fresh_ids : forall buflen sid (ls : list (Z * sstep)) d0 cur,
+  (forall L s, In (L, s) ls -> forall i, st_env s i = RLim L) ->
+  (d_frags d0 = [] \/ cur = Some (d_pid d0)) ->
+  fresh_ids buflen sid cur ls ->
+  exists rs d', send_hist buflen sid (map snd ls) = Ok rs /\
+    Forall (fun r => snd r = SNil) rs /\
+    feed_all d0 (hist_accepted rs) = Ok (d', hist_delivered buflen sid ls).
+Proof. exact send_hist_delivers_fresh. Qed.
+Print Assumptions C05_send_hist_delivers_fresh_ids.
+
+(* Pairwise distinct ids (the hypothesis of C05_send_hist_delivers) are a special case of the exact requirement. *)
+Theorem C05_fresh_ids_of_nodup : forall buflen sid (ls : list (Z * sstep)) cur,
+  NoDup (map (fun p => st_pid (snd p)) ls) ->
+  (forall x, cur = Some x -> ~ In x (map (fun p => st_pid (snd p)) ls)) ->
+  fresh_ids buflen sid cur ls.
+Proof. exact fresh_of_nodup. Qed.
+Print Assumptions C05_fresh_ids_of_nodup.
+
+(* The form the harness observes on the implementation (long-operation class: every message of the history is
+   split): ids distinct among any w >= 2 consecutive sends.  The history may be of any length - in particular
+   longer than the 65535 ids there are, which pairwise distinctness cannot cover. *)
+Theorem C05_send_hist_delivers_window : forall buflen sid w (ls : list (Z * sstep)) d0,
+  (2 <= w)%nat ->
+  (forall L s, In (L, s) ls -> forall i, st_env s i = RLim L) ->
+  (forall p, In p ls -> splits buflen sid (fst p) (snd p) = true) ->
+  win_distinct w (map (fun p => st_pid (snd p)) ls) = true ->
+  d_frags d0 = [] ->
+  exists rs d', send_hist buflen sid (map snd ls) = Ok rs /\
+    Forall (fun r => snd r = SNil) rs /\
+    feed_all d0 (hist_accepted rs) = Ok (d', hist_delivered buflen sid ls).
+Proof. exact send_hist_delivers_window. Qed.
+Print Assumptions C05_send_hist_delivers_window.
+
+(* The requirement is needed: two messages split in two under the SAME id, sent back to back over a loss-free
+   channel - both fit, yet the far side returns only one of them. *)
+Theorem C05_adjacent_id_repeat_loses_a_message : exists rs d' outs,
+  send_hist 4096 7 (map snd ex_rep) = Ok rs /\
+  feed_all d_init (hist_accepted rs) = Ok (d', outs) /\
+  length outs = 1%nat /\ length (hist_delivered 4096 7 ex_rep) = 2%nat.
+Proof. exact ex_rep_loses. Qed.
+Print Assumptions C05_adjacent_id_repeat_loses_a_message.
